@@ -470,7 +470,7 @@ def check_object(ck, tag, obj, O, phased, lite, results):
         name, key = "%s.gtcount(%s)" % (tag, spec), (tag, "gtcount", spec)
         res = call("gtcount", spec)
         arr0 = numpy.asarray(res)
-        if one_class_signature(arr0, O.gt[0], False) and k + 1 != 1:
+        if one_class_signature(arr0, O.gt[0], False):
             ck.fail(name + ":classes", CLS_GT,
                     "%s: shape %s, only genotype class 0 is counted; expected %d classes (ploidy+1) x %d loci" % (
                         name, tuple(arr0.shape), k + 1, p), key)
@@ -491,7 +491,7 @@ def check_object(ck, tag, obj, O, phased, lite, results):
         name, key = "%s.gtfreq(%s)" % (tag, spec), (tag, "gtfreq", spec)
         res = call("gtfreq", spec)
         arr0 = numpy.asarray(res)
-        if one_class_signature(arr0, O.gtf[0], True) and k + 1 != 1:
+        if one_class_signature(arr0, O.gtf[0], True):
             ck.fail(name + ":classes", CLS_GT,
                     "%s: shape %s, only genotype class 0 is reported; expected %d classes (ploidy+1) x %d loci" % (
                         name, tuple(arr0.shape), k + 1, p), key)
@@ -510,8 +510,9 @@ def check_object(ck, tag, obj, O, phased, lite, results):
     for spec in FREQ_DTYPE_ONLY:
         name, key = "%s.gtfreq(%s)" % (tag, spec), (tag, "gtfreq", spec)
         res = call("gtfreq", spec)
-        if not phased and tuple(numpy.asarray(res).shape) == (1, p) and k + 1 != 1:
-            continue    # already reported above under CLS_GT
+        if not phased and tuple(numpy.asarray(res).shape) == (1, p):
+            ck.fail(name + ":classes", CLS_GT, "%s: shape (1, %d), only genotype class 0 is reported" % (name, p), key)
+            continue
         _res_array(ck, name, key, res, spec, _is_f64, (k + 1, p), "C09:gtfreq-dtype")
 
     # ---- alternative codings ---------------------------------------------------------------------
